@@ -466,6 +466,13 @@ type c06sliceTarget struct {
 type c06structTarget struct {
 	A struct{ X int64 } `json:"a"`
 }
+type c06aTimeTarget struct {
+	A avrotimeTime `json:"a"`
+}
+type c06ptrTimeTarget struct {
+	A *avrotimeTime           `json:"a"`
+	M map[string]avrotimeTime `json:"m"`
+}
 type c06ptrTarget struct {
 	A *[]int64 `json:"a"`
 }
@@ -483,7 +490,7 @@ func (e *c06env) schemaAndCodec(c *core.Ctx, class, text string) bool {
 	if err != nil {
 		return true
 	}
-	targets := []any{c06anyTarget{}, &c06arrTarget{}, c06mapTarget{}, c06sliceTarget{}, c06structTarget{}, c06ptrTarget{}, struct{}{}}
+	targets := []any{c06anyTarget{}, &c06arrTarget{}, c06mapTarget{}, c06sliceTarget{}, c06structTarget{}, c06ptrTarget{}, struct{}{}, c06aTimeTarget{}, c06ptrTimeTarget{}}
 	for _, tg := range targets {
 		var codec avro.Codec
 		err, ok := e.call(c, "Schema.Codec", class, []byte(text), true, 1, func() error {
@@ -776,6 +783,21 @@ func runC06(c *core.Ctx, i int) {
 				c.Count("schema-hostile-size", 1)
 				if !e.schemaAndCodec(c, "schema-hostile-size", text) {
 					return
+				}
+			}
+		}
+		// logical types of every spelling on every base type, with time.Time destinations among the targets
+		for _, base := range []string{"long", "int", "string", "bytes", "double", "boolean"} {
+			for _, lt := range []string{"timestamp-micros", "timestamp-millis", "timestamp-nanos", "local-timestamp-micros", "local-timestamp-millis", "date", "time-micros", "time-millis", "decimal", "uuid", "duration", "Timestamp-Micros", "timestamp_micros", "", " ", "x"} {
+				ty := `{"type":"` + base + `","logicalType":"` + lt + `"}`
+				for _, text := range []string{
+					`{"type":"record","name":"r","fields":[{"name":"a","type":` + ty + `}]}`,
+					`{"type":"record","name":"r","fields":[{"name":"a","type":["null",` + ty + `]},{"name":"m","type":{"type":"map","values":` + ty + `}}]}`,
+				} {
+					c.Count("schema-logical-types", 1)
+					if !e.schemaAndCodec(c, "schema-logical-type", text) {
+						return
+					}
 				}
 			}
 		}
